@@ -19,7 +19,7 @@ func init() {
 			"Oracle: math/big exact arithmetic and correctly rounded IEEE results. Non-trivial: both operands non-zero; distinct by (operator, operands, representations)",
 		Run:          runC13,
 		Replay:       replayC13,
-		MinExercised: map[string]int64{"int_exact": 5000, "float_ieee": 5000, "divzero": 500, "exists-mode": 5000, "singleton": 100, "unary.map": 200, "unary.nonnumeric": 100, "identity.commute": 3000, "identity.dneg": 100},
+		MinExercised: map[string]int64{"int_exact": 5000, "float_ieee": 5000, "divzero": 500, "exists-mode": 5000, "operand-chain": 2000, "singleton": 100, "unary.map": 200, "unary.nonnumeric": 100, "identity.commute": 3000, "identity.dneg": 100},
 		Assumptions: []string{
 			"integer operand = integer representation (int64, or a json.Number that parses as int64); integer quotients may be truncated or exact",
 			"for mixed integer/double operands both 'round operands then operate' and 'operate exactly then round' are accepted",
@@ -360,7 +360,69 @@ func replayC13(c *h.Ctx, cs h.Case) {
 
 var c13Ops = []string{"+", "-", "*", "/", "%"}
 
+// checkOperandChains: an operand may be a literal (or any expression) with
+// item methods chained to it; the operator applies to what the chain yields,
+// i.e. `a op (b).m()` equals `a op $v` with v = Query((b).m()).
+func checkOperandChains(c *h.Ctx) {
+	lits := []string{"0.5", "-0.5", "0.25", "2", "-2", "0", "1.5", "9223372036854775807", "-1", "3"}
+	meths := []string{".floor()", ".ceiling()", ".abs()", ".type()", ".string()", ".double()", ".abs().floor()", ".size()", ".number()", ".bigint()"}
+	k := 0
+	for _, b := range lits {
+		for _, m := range meths {
+			inner := "(" + b + ")" + m
+			for _, a := range lits {
+				for _, op := range c13Ops {
+					for side := 0; side < 2; side++ {
+						k++
+						if !c.Mine(k) {
+							continue
+						}
+						chained, viaVar := "("+a+") "+op+" "+inner, "("+a+") "+op+" $v"
+						if side == 1 {
+							chained, viaVar = inner+" "+op+" ("+a+")", "$v "+op+" ("+a+")"
+						}
+						for _, mode := range []string{"", "strict "} {
+							pi := cachedPath(mode + inner)
+							if pi == nil {
+								continue
+							}
+							oi := h.Call("query", pi, nil, h.Opts{})
+							if oi.Class != h.OK || len(oi.Items) != 1 {
+								continue // (an inner failure is the operand's failure: other clauses)
+							}
+							v := oi.Items[0]
+							pc, pv := cachedPath(mode+chained), cachedPath(mode+viaVar)
+							if pc == nil || pv == nil {
+								c.Count("gen.unparsable", 1)
+								continue
+							}
+							oc := h.Call("query", pc, nil, h.Opts{})
+							ov := h.Call("query", pv, nil, h.Opts{Vars: map[string]any{"v": v}})
+							ec := h.Call("exists", pc, nil, h.Opts{Silent: true})
+							c.Eval(3)
+							c.Distinct("chain", mode, chained)
+							cs := h.Case{Kind: "operand-chain", Path: mode + chained, Extra: map[string]string{"via-variable": mode + viaVar, "v": h.Canon(v)}}
+							same := oc.Class == ov.Class && (oc.Class != h.OK || h.CanonListTyped(oc.Items) == h.CanonListTyped(ov.Items))
+							switch {
+							case oc.Class == h.Panic || ov.Class == h.Panic:
+								c.Skip("operand-chain", "panic-is-C05")
+							case !same:
+								c.Violate("operand-chain", h.F("op", op, "method", m), fmt.Sprintf("%s returned %s but %s with v = %s returned %s", mode+chained, oc.Summary(), mode+viaVar, h.Canon(v), ov.Summary()), cs)
+							case oc.Class != h.OK && ec.Class == h.OK && ec.Bool:
+								c.Violate("operand-chain", h.F("op", op, "method", m, "entry", "exists"), fmt.Sprintf("%s fails with %s but silent Exists returned true", mode+chained, oc.Summary()), cs)
+							default:
+								c.Held("operand-chain")
+							}
+						}
+					}
+				}
+			}
+		}
+	}
+}
+
 func runC13(c *h.Ctx) {
+	checkOperandChains(c)
 	reprs := []string{"lit", "f64", "num"}
 	idx := 0
 	for _, lt := range c13Grid {
